@@ -18,7 +18,7 @@ PROP = 'C11'
 MANIFEST = dict(
     category='exploration', design_ref='DESIGN.md §3 C11',
     technique='bounded-exhaustive enumeration of relation multisets (self-loops, cycles, parallel and duplicated relations, dc:type, metadata) x scopes x type-argument subsets on the real query layer vs a reference relation model; termination by step budget',
-    text='For each relation table (synset-synset, sense-sense, sense-synset) every multiset of up to 2 (thorough: 3) relation instances drawn from source x target x type {hypernym, similar, x_custom} x dc:type {none, p, q} x extra metadata {none, dc:source} over two nodes is stored (duplicates, self-loops and 2-cycles included; 200 lexicons per database), once purely in the base lexicon and once with the last instance contributed by a lexicon extension that also owns a node. For every entity, in the scopes base / base+extension / extension only / default mode, relations(*t), get_related(*t), relation_map(), get_related_synsets(*t), closure(*t), relation_paths(*t) and the hypernyms() shortcut are compared, for t = (), each single type and each pair, with the reference: exactly the declared in-scope relations, no duplicates, right name/source/target/defining lexicon, metadata one of those declared for that key, relations differing only in dc:type kept apart, closure = reachable set each once, paths = the maximal simple paths; every call runs under a step budget.',
+    text='For each relation table (synset-synset, sense-sense, sense-synset) every multiset of up to 2 (thorough: 3) relation instances drawn from source x target x type {hypernym, similar, x_custom} x dc:type {none, p, q} x extra metadata {none, dc:source} over two nodes is stored (duplicates, self-loops and 2-cycles included; 200 lexicons per database), once purely in the base lexicon and once with the last instance contributed by a lexicon extension that also owns a node (singletons also: with a second extension node pointing at an extension sense that hangs on a base synset, and with an extension of the extension adding a relation to the first extension node and a node of its own). For every entity, in the scopes base / base+extension / extension only / default mode (and base+ext+ext2, ext+ext2 for the two-level variant), relations(*t), get_related(*t), relation_map(), get_related_synsets(*t), closure(*t), relation_paths(*t) and the hypernyms() shortcut are compared, for t = (), each single type and each pair, with the reference: exactly the declared in-scope relations, no duplicates, right name/source/target/defining lexicon, metadata one of those declared for that key, relations differing only in dc:type kept apart, closure = reachable set each once, paths = the maximal simple paths; every call runs under a step budget.',
     note='Order of returned lists is not compared (C16 owns determinism).',
 )
 
@@ -94,11 +94,34 @@ def build(lid, kind, multiset, ext):
         entries.append({'id': f'{B}e{i}', 'external': True,
                         'senses': [dict({'id': f'{B}s{i}', 'external': True},
                                         **({'relations': xe[i]} if xe.get(i) else {}))]})
-    entries.append(mk.entry(f'{X}e0', 'wx', 'n', senses=[mk.sense(f'{X}s0', f'{X}ss0', relations=own_rel_s)]))
+    # variant 'x2': the extension's sense X0 hangs on the *base* synset B0 and a second node of the extension,
+    # X1, points at X0 (similar) - in the extension-only scope both ends are in scope, the target's synset is not
+    x0_synset = f'{B}ss0' if ext == 'x2' and kind != 'ss' else f'{X}ss0'
+    entries.append(mk.entry(f'{X}e0', 'wx', 'n', senses=[mk.sense(f'{X}s0', x0_synset, relations=own_rel_s)]))
     synsets = [dict({'id': f'{B}ss{i}', 'external': True}, **({'relations': xss[i]} if xss.get(i) else {}))
                for i in range(N)]
     synsets.append(mk.synset(f'{X}ss0', 'n', relations=own_rel_ss))
+    if ext == 'x2':
+        r1 = mk.rel(tgt(kind, 0, X), 'similar')
+        entries.append(mk.entry(f'{X}e1', 'wx1', 'n', senses=[mk.sense(f'{X}s1', f'{X}ss1', relations=[] if kind == 'ss' else [r1])]))
+        synsets.append(mk.synset(f'{X}ss1', 'n', relations=[r1] if kind == 'ss' else []))
+        rows.append((f'{xid}:1', 'X1', 'X0', 'similar', {}))
     extl = mk.lexicon(xid, '1', extends={'id': lid, 'version': '1'}, entries=entries, synsets=synsets)
+    if ext == 'xx':
+        # variant 'xx': an extension of the extension adds a relation to the first extension's node (X0 -> Y0)
+        # and a node of its own, Y0 -> X0
+        yid = lid + 'y'
+        Y = yid + '-'
+        ry = mk.rel(tgt(kind, 0, Y), 'x_custom')      # (an extension of an extension cannot name grand-base entities)
+        r0 = mk.rel(tgt(kind, 0, X), 'hypernym')
+        yents = [{'id': f'{X}e0', 'external': True,
+                  'senses': [dict({'id': f'{X}s0', 'external': True}, **({'relations': [ry]} if kind != 'ss' else {}))]},
+                 mk.entry(f'{Y}e0', 'wy', 'n', senses=[mk.sense(f'{Y}s0', f'{Y}ss0', relations=[] if kind == 'ss' else [r0])])]
+        ysyn = [dict({'id': f'{X}ss0', 'external': True}, **({'relations': [ry]} if kind == 'ss' else {})),
+                mk.synset(f'{Y}ss0', 'n', relations=[r0] if kind == 'ss' else [])]
+        rows.append((f'{yid}:1', 'X0', 'Y0', 'x_custom', {}))
+        rows.append((f'{yid}:1', 'Y0', 'X0', 'hypernym', {}))
+        extl = [extl, mk.lexicon(yid, '1', extends={'id': xid, 'version': '1'}, entries=yents, synsets=ysyn)]
     return base, extl, rows
 
 
@@ -106,7 +129,9 @@ def name_of(ent, lid):
     """entity id -> 'B<i>' / 'X0'"""
     rest = ent.id[len(lid):]
     if rest.startswith('x-'):
-        return 'X0'
+        return 'X' + rest[-1]
+    if rest.startswith('y-'):
+        return 'Y' + rest[-1]
     return 'B' + rest.lstrip('-es')[-1]
 
 
@@ -134,6 +159,15 @@ def check_one(lid, kind, rows, ext, V, obs, g):
                    ('ext', dict(lexicon=ext_spec, expand=''), {ext_spec}),
                    ('default', dict(expand=''), {base_spec, ext_spec})]
     lex_of = {'B0': base_spec, 'B1': base_spec, 'X0': ext_spec}
+    if ext == 'x2':
+        lex_of['X1'] = ext_spec
+    if ext == 'xx':
+        ext2_spec = f'{lid}y:1'
+        lex_of['Y0'] = ext2_spec
+        scopes = scopes[:3] + [('base+ext+ext2', dict(lexicon=f'{base_spec} {ext_spec} {ext2_spec}', expand=''),
+                                {base_spec, ext_spec, ext2_spec}),
+                               ('ext+ext2', dict(lexicon=f'{ext_spec} {ext2_spec}', expand=''), {ext_spec, ext2_spec}),
+                               ('default', dict(expand=''), {base_spec, ext_spec, ext2_spec})]
     types_present = sorted({r[3] for r in rows})
     argsets = [()] + [(t,) for t in TYPES] + list(itertools.combinations(TYPES, 2))
 
@@ -147,11 +181,11 @@ def check_one(lid, kind, rows, ext, V, obs, g):
         ents = {}
         src_get = w.synsets if kind == 'ss' else w.senses
         for e in src_get():
-            if e.id.startswith(lid + '-') or e.id.startswith(lid + 'x-'):
+            if e.id.startswith(lid + '-') or e.id.startswith(lid + 'x-') or e.id.startswith(lid + 'y-'):
                 ents[name_of(e, lid)] = e
         want_nodes = {n for n, lx in lex_of.items() if lx in S and (ext or n != 'X0')}
         if sname == 'default':
-            want_nodes = {'B0', 'B1', 'X0'}
+            want_nodes = set(lex_of)
         if set(ents) != want_nodes:
             bad(f'scope:{sname}:entities', f'entities {sorted(ents)} expected {sorted(want_nodes)}')
             continue
@@ -306,13 +340,17 @@ def check(case):
             base, extl, rows = build(lid, g['kind'], ms, g['ext'])
             lexs.append(base)
             if extl:
-                lexs.append(extl)
+                lexs.extend(extl if isinstance(extl, list) else [extl])
             built.append((lid, g, rows))
         # bases first (an extension bundled with its base would be skipped by the pre-check)
         env.add_resource(mk.resource([l for l in lexs if not l.get('extends')], '1.3'))
         exts = [l for l in lexs if l.get('extends')]
-        if exts:
-            env.add_resource(mk.resource(exts, '1.3'))
+        lvl1 = [l for l in exts if not l['extends']['id'].endswith('x')]
+        lvl2 = [l for l in exts if l['extends']['id'].endswith('x')]
+        if lvl1:
+            env.add_resource(mk.resource(lvl1, '1.3'))
+        if lvl2:
+            env.add_resource(mk.resource(lvl2, '1.3'))
         nt = 0
         for lid, g, rows in built:
             obs = []
@@ -350,6 +388,11 @@ def space(tier, seed):
                 items.append({'kind': kind, 'ms': list(ms), 'ext': False})
                 if size >= 1 and (tier == 'thorough' or size == 1 or (ms[0] + ms[1]) % 3 == seed % 3):
                     items.append({'kind': kind, 'ms': list(ms), 'ext': True})
+                if size == 1:
+                    # a second node of the extension pointing at an extension sense that hangs on a base synset;
+                    # an extension of the extension contributing to the first extension's node
+                    items.append({'kind': kind, 'ms': list(ms), 'ext': 'x2'})
+                    items.append({'kind': kind, 'ms': list(ms), 'ext': 'xx'})
     cases = [{'alphabet': insts, 'items': items[i:i + BATCH]} for i in range(0, len(items), BATCH)]
     if insts3:
         items3 = []
